@@ -263,6 +263,27 @@ def shared_case(truth="function"):
         shutil.rmtree(d, ignore_errors=True)
 
 
+def argparse_frame_replay():
+    """The frame contract of the argparse emitter on the real function: the 'default' key of the caller's dict is left as it was"""
+    import copy
+
+    import cdd.shared.ast_utils as AU
+
+    for name, p in (("limit", {"typ": "Optional[int]", "doc": "the limit"}), ("weights", {"typ": "List[float]", "doc": "the weights"}), ("n", {"typ": "int", "doc": "the n. Defaults to 5"}),
+                    ("kwargs", {"typ": "dict", "doc": "keyword arguments"}), ("mode", {"typ": "Literal['a', 'b']", "doc": "the mode", "default": "a"}), ("flag", {"doc": "a flag"}),
+                    ("ratio", {"typ": "Optional[float]", "doc": "the ratio", "default": None})):
+        for edd in (True, False):
+            mine = copy.deepcopy(p)
+            try:
+                AU.param2argparse_param((name, mine), word_wrap=False, emit_default_doc=edd)
+            except Exception:
+                continue
+            if ("default" in mine) != ("default" in p) or ("default" in p and mine["default"] != p["default"]):
+                return {"call": "cdd.shared.ast_utils.param2argparse_param((%r, %r), emit_default_doc=%r)" % (name, p, edd),
+                        "what": "the caller's parameter dict is left as %r: the 'default' key was %s (the class / function emitters that get the same interface description next read it)" % (mine, "added" if "default" not in p else "changed")}
+    return None
+
+
 def main(tier, write_baseline=False):
     run = Run("C12", tier, "other", checker_cmd=common.checker_cmd("C12", tier))
     run.trusted_base.update(["rule engine of checks/C12.py over the real ast (write frame, dominance, shape)", "cddvc E1 (Seq views) for the block contract on cmp_ast"])
@@ -339,9 +360,13 @@ def main(tier, write_baseline=False):
         if o["name"] in seen_:
             continue
         seen_.add(o["name"])
-        d_ = cmp_ast_differential()
+        if "param2argparse_param" in o["name"] or "_resolve_arg" in o["name"]:
+            fi_ = argparse_frame_replay() or common.model_replay("contracts.C12", o)
+        else:
+            d_ = cmp_ast_differential()
+            fi_ = {"case": ["cmp_ast", ["differential"], "short"], "what": d_[0][1][:300]} if d_ else None
         run.violation(o["name"], "obligation refuted by %s on path %s" % (o["backend"], " ".join(o["trace"])),
-                      failing_input=({"case": ["cmp_ast", ["differential"], "short"], "what": d_[0][1][:300]} if d_ else None), solver_output={"model": o["model"], "smt2": (o["smt2"] or "")[:3000]})
+                      failing_input=fi_, solver_output={"model": o["model"], "smt2": (o["smt2"] or "")[:3000]})
     for key, (case, what) in sorted(fails.items(), key=str):
         cls = "|".join(str(k) for k in key)
         run.violation("C12/bounded/%s" % key[0], "[class %s] %s" % (cls, what), key={"class": cls}, failing_input={"case": [case[0], list(case[1]), case[2]]})
